@@ -106,21 +106,20 @@ def hSpecFuseOK : Handler := handler fun
   | [g, req, out] => do pure (SExp.ofBool (fuseSpecOK (← ngraph? g) (← objs? req) (← fgraph? out)))
   | _ => none
 
-/-- `(fused_name (split names of the other keys...) first_name last keep|none cut digest)`: the name
+/-- `(fused_name (split names of the other keys...) first_name last max_len|none digest)`: the name
     `default_fused_keys_renamer` builds from string parts; `digest` is the hash suffix of the concatenated name as the
     harness computes it (only used when the name is too long). Returns `(concatenated result)`. -/
 def hFusedName : Handler := handler fun
-  | [names, firstName, last, keep, cut, dg] => do
+  | [names, firstName, last, m, dg] => do
     let names ← (← names.toList?).mapM SExp.toStr?
     let firstName ← firstName.toStr?
     let last ← last.toStr?
-    let keep ← match keep with
+    let m ← match m with
       | .sym "none" => some none
       | e => e.toNat?.map some
-    let cut ← cut.toNat?
     let dg ← dg.toStr?
     let c := Dask.FusedName.concatName (names.map String.toList) firstName.toList last.toList
-    pure (.list [.str (String.ofList c), .str (String.ofList (Dask.FusedName.enforceLimit keep cut (fun _ => dg.toList) c))])
+    pure (.list [.str (String.ofList c), .str (String.ofList (Dask.FusedName.renamerLimit m (fun _ => dg.toList) c))])
   | _ => none
 
 def specIoHandlers : List (String × Handler) :=
